@@ -23,6 +23,8 @@ package main
 //   proxy_send_once_per_upreq : the RunSenderFilter call of the UpFilter case of receive() sits under a condition (go/ast)
 //   proxy_started_marked_first : onUpstreamHeaders assigns downstreamResponseStarted before it calls appendHeaders and assigns no
 //                          field of the stream after that call (go/ast)
+//   proxy_try_captures_id / proxy_global_captures_id : the timer closure of setupPerReqTimeout / onUpstreamRequestSent uses a variable
+//                          that the arming function assigned from atomic.LoadUint32(&s.ID) outside the closure (go/ast)
 //   proxy_hijack_clears_body : sendHijackReply assigns downstreamRespDataBuf = nil at top level (go/ast)
 //   proxy_put_resets_cursor : streamfilter.PutStreamFilterChain (or a chain method it calls) assigns 0 to both cursors (go/ast)
 //   proxy_default_global_ms : types.GlobalTimeout (evaluated)
@@ -650,6 +652,76 @@ func genProxyTokens(repo string) (string, error) {
 		ok = false
 	}
 	fmt.Fprintf(&b, "Definition proxy_started_marked_first : bool := %v.\n", markedFirst)
+	// --- the timer functions: the proxy ID they compare the object's current ID with is a variable of the ARMING function, assigned
+	// from atomic.LoadUint32(&s.ID) outside the closure and used inside it
+	capturesID := func(fn string) bool {
+		fd := FindFunc(f, "downStream", fn)
+		if fd == nil {
+			ok = false
+			return false
+		}
+		isLoadID := func(e ast.Expr) bool {
+			ce, isCall := e.(*ast.CallExpr)
+			if !isCall || len(ce.Args) != 1 {
+				return false
+			}
+			se, isSel := ce.Fun.(*ast.SelectorExpr)
+			if !isSel || se.Sel.Name != "LoadUint32" {
+				return false
+			}
+			u, isU := ce.Args[0].(*ast.UnaryExpr)
+			if !isU {
+				return false
+			}
+			fs, isF := u.X.(*ast.SelectorExpr)
+			return isF && fs.Sel.Name == "ID"
+		}
+		found, timers := false, 0
+		ast.Inspect(fd.Body, func(n ast.Node) bool {
+			blk, isBlk := n.(*ast.BlockStmt)
+			if !isBlk {
+				return true
+			}
+			caps := map[string]bool{}
+			for _, st := range blk.List {
+				if as, isAs := st.(*ast.AssignStmt); isAs && as.Tok == token.DEFINE && len(as.Lhs) == 1 && len(as.Rhs) == 1 && isLoadID(as.Rhs[0]) {
+					if id, isID := as.Lhs[0].(*ast.Ident); isID {
+						caps[id.Name] = true
+					}
+				}
+				// s.xxxTimer = utils.NewTimer(d, func() {...}) in this block
+				as, isAs := st.(*ast.AssignStmt)
+				if !isAs || len(as.Rhs) != 1 {
+					continue
+				}
+				ce, isCall := as.Rhs[0].(*ast.CallExpr)
+				if !isCall || len(ce.Args) != 2 {
+					continue
+				}
+				if se, isSel := ce.Fun.(*ast.SelectorExpr); !isSel || se.Sel.Name != "NewTimer" {
+					continue
+				}
+				fl, isFn := ce.Args[1].(*ast.FuncLit)
+				if !isFn {
+					continue
+				}
+				timers++
+				ast.Inspect(fl.Body, func(x ast.Node) bool {
+					if id, isID := x.(*ast.Ident); isID && caps[id.Name] {
+						found = true
+					}
+					return true
+				})
+			}
+			return true
+		})
+		if timers != 1 {
+			ok = false
+		}
+		return found
+	}
+	fmt.Fprintf(&b, "Definition proxy_try_captures_id : bool := %v.\n", capturesID("setupPerReqTimeout"))
+	fmt.Fprintf(&b, "Definition proxy_global_captures_id : bool := %v.\n", capturesID("onUpstreamRequestSent"))
 	minBudget := ""
 	if nf := FindFunc(rf, "", "newRetryState"); nf != nil {
 		ast.Inspect(nf.Body, func(n ast.Node) bool {
@@ -715,7 +787,7 @@ func genProxyTokens(repo string) (string, error) {
 		}
 	}
 	fmt.Fprintf(&b, "Definition proxy_default_global_ms : Z := %d.\n", int64(types.GlobalTimeout/time.Millisecond))
-	b.WriteString("Definition proxy_src : srcp :=\n  {| loop_bound := proxy_loop_bound; min_budget := proxy_min_budget; reset_guarded := proxy_reset_guarded;\n     direct_clears_again := proxy_direct_clears_again;\n     direct_cancels_retry := proxy_direct_cancels_retry; direct_resets_upstream := proxy_direct_resets_upstream;\n     put_resets_cursor := proxy_put_resets_cursor;\n     retry_checks_direct := proxy_retry_checks_direct; retry_refinalizes := proxy_retry_refinalizes;\n     timers_reset_stream := proxy_timers_reset_stream; hijack_clears_body := proxy_hijack_clears_body;\n     retry_clears_reuse := proxy_retry_clears_reuse; setupretry_clears_reuse := proxy_setupretry_clears_reuse;\n     global_lost_cas_stops := proxy_global_lost_cas_stops; append_error_continues := proxy_append_error_continues;\n     reset_excludes_global := proxy_reset_excludes_global; reset_reads_status := proxy_reset_reads_status;\n     res_counts_unlimited := proxy_res_counts_unlimited;\n     send_once_per_upreq := proxy_send_once_per_upreq; started_marked_first := proxy_started_marked_first;\n     reason_code := proxy_reason_code |}.\n")
+	b.WriteString("Definition proxy_src : srcp :=\n  {| loop_bound := proxy_loop_bound; min_budget := proxy_min_budget; reset_guarded := proxy_reset_guarded;\n     direct_clears_again := proxy_direct_clears_again;\n     direct_cancels_retry := proxy_direct_cancels_retry; direct_resets_upstream := proxy_direct_resets_upstream;\n     put_resets_cursor := proxy_put_resets_cursor;\n     retry_checks_direct := proxy_retry_checks_direct; retry_refinalizes := proxy_retry_refinalizes;\n     timers_reset_stream := proxy_timers_reset_stream; hijack_clears_body := proxy_hijack_clears_body;\n     retry_clears_reuse := proxy_retry_clears_reuse; setupretry_clears_reuse := proxy_setupretry_clears_reuse;\n     global_lost_cas_stops := proxy_global_lost_cas_stops; append_error_continues := proxy_append_error_continues;\n     reset_excludes_global := proxy_reset_excludes_global; reset_reads_status := proxy_reset_reads_status;\n     res_counts_unlimited := proxy_res_counts_unlimited;\n     send_once_per_upreq := proxy_send_once_per_upreq; started_marked_first := proxy_started_marked_first;\n     try_captures_id := proxy_try_captures_id; global_captures_id := proxy_global_captures_id;\n     reason_code := proxy_reason_code |}.\n")
 	fmt.Fprintf(&b, "Definition ProxyTokens_translator_ok := %v.\n", ok)
 	return b.String(), nil
 }
